@@ -67,7 +67,7 @@ def Prog.numAcq : Prog Lock → Nat
   | .join _ k => numAcq k
 
 example : table.length = 14 ∧ Prog.numAcq (opProg d0 .gcExplicit) = 11
-    ∧ Prog.numAcq (opProg d0 (.reorder [0, 1] [2])) = 30 := by decide
+    ∧ Prog.numAcq (opProg d0 (.reorder [0, 1] [2])) = 31 := by decide
 
 /-- The discipline is not vacuous: the re-entrant shared acquisition found in
 `oxidd-cli/src/scheduler.rs:105 → 498` is rejected, … -/
@@ -478,7 +478,11 @@ example :
 ## What is NOT proved
 
 * The table `opProg` is a hand-written abstraction of the Rust code (each row cites file:line);
-  there is no mechanical extraction. Code outside the rows — user callbacks that run under the
+  there is no mechanical extraction. The tie to the code is a *runtime* one
+  (`PropertiesTrace.lean`): the library's lock sites are instrumented, the logged per-thread event
+  sequences of concurrent runs are replayed against the discipline `ok (disc d)` on every check
+  (`trace_ok_iff`, `trace_no_deadlock`), and every observed acquisition context must occur in some
+  row (`Contexts.lean`) — that covers the executed paths only. Code outside the rows — user callbacks that run under the
   lock (FFI iterators, `pick_cube` choice functions, `manager.terminals()` which keeps the
   terminal-table mutex while the caller iterates), `oxidd-manager-pointer` — is not covered.
 * Primitives are assumed correct; scheduler/lock fairness, starvation freedom, the memory model
